@@ -43,6 +43,7 @@ VwAt(j) ==
 Count == NLattice + NHash + NAmbient + NVw
 ItemAt(g) == IF g <= NLattice THEN LatticeAt(g) ELSE IF g <= NLattice + NHash THEN HashAt(g - NLattice)
              ELSE IF g <= NLattice + NHash + NAmbient THEN AmbientAt(g - NLattice - NHash) ELSE VwAt(g - NLattice - NHash - NAmbient)
+Histories == 0
 VARIABLE n
 INSTANCE GenBase
 =============================================================================
